@@ -26,15 +26,35 @@ def main(argv):
     cap = getattr(mod, 'CAP_S', {}).get(tier)
     if os.environ.get('FBMC_CAP_S'):
         cap = float(os.environ['FBMC_CAP_S'])
+    if cap is None and tier == 'thorough':
+        cap = 1200.0
     deadline = t0 + cap if cap else None
     if hasattr(mod, 'run'):
         return mod.run(tier, seed)
     tasks = mod.tasks(tier, seed)
     import random
     random.Random(seed).shuffle(tasks)
-    res = engine.run_pool(mod.__name__, tasks, deadline)
+    spaces_done = None
+    if tier == 'thorough' and tasks and all('space' in t for t in tasks):
+        # bounded spaces in order (smallest first), each to completion while time remains
+        res = engine.Result()
+        spaces_done = []
+        for si in sorted({t['space'] for t in tasks}):
+            if time.time() > deadline:
+                res.capped = True
+                break
+            was = res.capped
+            res.capped = False
+            engine.run_pool(mod.__name__, [t for t in tasks if t['space'] == si], deadline, into=res)
+            spaces_done.append({'space': si, 'complete': not res.capped})
+            res.capped = res.capped or was
+    else:
+        res = engine.run_pool(mod.__name__, tasks, deadline)
     wall = time.time() - t0
     cov = mod.coverage(res, tier)
+    if spaces_done is not None:
+        cov['spaces_completed'] = spaces_done
+        cov['time_cap_s'] = round(deadline - t0)
     return engine.report(prop, tier, seed, getattr(mod, 'LEVEL', 'model_checking'), res, cov, wall,
                          getattr(mod, 'ASSUMPTIONS', ()))
 
